@@ -357,12 +357,13 @@ impl From<bool> for Value {
 }
 
 macro_rules! binary_op {
-    ($a: expr, $b: expr, $op: tt) => {
+    ($a: expr, $b: expr, $op: tt, $wrapping: ident) => {
         {
         let (a, b) = $a.try_cast_match($b);
         match (a, b) {
             (Value::Integer(a), Value::Integer(b)) => {
-                    Value::Integer(a $op b)
+                    // integer overflow wraps around (in every build profile)
+                    Value::Integer(a.$wrapping(b))
             }
             (Value::Real(a), Value::Real(b)) => Value::Real(a $op b),
             _ => Value::Nil
@@ -375,7 +376,7 @@ impl Add for Value {
     type Output = Self;
 
     fn add(self, other: Self) -> Self {
-        binary_op!(self, other, +)
+        binary_op!(self, other, +, wrapping_add)
     }
 }
 
@@ -383,7 +384,7 @@ impl Sub for Value {
     type Output = Self;
 
     fn sub(self, other: Self) -> Self {
-        binary_op!(self, other, -)
+        binary_op!(self, other, -, wrapping_sub)
     }
 }
 
@@ -391,7 +392,7 @@ impl Mul for Value {
     type Output = Self;
 
     fn mul(self, other: Self) -> Self {
-        binary_op!(self, other, *)
+        binary_op!(self, other, *, wrapping_mul)
     }
 }
 
